@@ -1,7 +1,7 @@
 (** * C01 — fixture resolution follows pytest's shadowing order.
     Statements only: each theorem is closed by [exact] of a lemma proved in Proofs/,
     pinned with [Check], and followed by [Print Assumptions]. *)
-From PLS Require Import Check.C01 Proofs.Basics Proofs.Cascade.
+From PLS Require Import Check.C01 Check.C07 Proofs.Basics Proofs.Cascade Proofs.WarmCold Proofs.ImportsComplete.
 
 (** Full-strength statement (FALSE of the faithful model, see [C01_refuted_import_provenance]):
       forall dk roots s F n, F <> [] -> allowed dk roots s F n (closest dk roots s F n) = true.
@@ -37,6 +37,32 @@ Theorem C01_resolve_none_only_if_invisible_partial :
     existsb (fun C => C d) (providers dk roots s F n) = false.
 Proof. exact closest_none_invisible. Qed.
 Print Assumptions C01_resolve_none_only_if_invisible_partial.
+
+(** the hypothesis [imports_complete] is itself a theorem: in every state whose reverse
+    index covers its definitions and whose current memo entries are closures — in particular
+    in EVERY state reached by analyses, closes and queries in any interleaving — whenever the
+    specification finds a module supplying the name to a conftest.py (through any chain of
+    star imports, pytest_plugins entries, explicit imports), the resolver's import test says
+    so (Proofs/ImportClosure.v + Proofs/ImportsComplete.v) *)
+Theorem C01_imports_complete_in_every_reached_state :
+  forall dk roots s n dir, reached dk roots s -> imports_complete dk roots s n dir.
+Proof. exact imports_complete_reached. Qed.
+Print Assumptions C01_imports_complete_in_every_reached_state.
+
+(** hence, for reached states, soundness needs only the exclusion of the listed finding *)
+Theorem C01_resolve_sound_in_every_reached_state :
+  forall dk roots s n F,
+    reached dk roots s -> F <> [] -> K_import_provenance dk roots s None F n = false ->
+    allowed dk roots s F n (closest dk roots s F n) = true.
+Proof. exact closest_allowed_reached. Qed.
+Print Assumptions C01_resolve_sound_in_every_reached_state.
+
+Theorem C01_never_invisible_in_every_reached_state :
+  forall dk roots s n F d,
+    reached dk roots s -> F <> [] -> K_import_provenance dk roots s None F n = false ->
+    closest dk roots s F n = Some d -> visible dk roots s F n d = true /\ In d (defs_named s n).
+Proof. exact closest_visible_reached. Qed.
+Print Assumptions C01_never_invisible_in_every_reached_state.
 
 (** ** witnesses: reachable states built by the model's own [analyze] *)
 Definition fx (name : string) (line : N) : item :=
@@ -96,3 +122,8 @@ Check C01_resolve_sound_partial :
     allowed dk roots s F n (closest dk roots s F n) = true.
 Print Assumptions C01_refuted_import_provenance.
 Print Assumptions C01_hypotheses_satisfiable.
+
+Check C01_resolve_sound_in_every_reached_state :
+  forall dk roots s n F,
+    reached dk roots s -> F <> [] -> K_import_provenance dk roots s None F n = false ->
+    allowed dk roots s F n (closest dk roots s F n) = true.
